@@ -13,7 +13,8 @@ import (
 type Outcome struct {
 	Latency time.Duration `json:"lat"`
 	// Kind: "" answer normally | "error" | "hang" (no answer until the caller
-	// gives up or ClientTimeout passes, then an error) | "odd" (scenario-defined odd content)
+	// gives up or ClientTimeout passes, then an error) | "blackhole" (no answer ever: only the
+	// caller's context ends the request) | "odd" (scenario-defined odd content)
 	Kind    string `json:"kind,omitempty"`
 	Variant int    `json:"variant,omitempty"` // scenario-defined content selector
 }
@@ -58,7 +59,9 @@ func (s *Script) Next(party, method string, arg any) (Outcome, *CallRec) {
 		i := s.counts[key]
 		s.counts[key] = i + 1
 		o = s.Default
-		if l := s.Outcomes[key]; i < len(l) {
+		if l := s.Outcomes[key+"!"]; len(l) > 0 {
+			o = l[0] // "party/method!": every call
+		} else if l := s.Outcomes[key]; i < len(l) {
 			o = l[i]
 		} else if l := s.Outcomes[party+"/*"]; i < len(l) {
 			o = l[i]
@@ -85,6 +88,11 @@ func (s *Script) Do(ctx context.Context, party, method string, arg any) (Outcome
 	if o.Kind == "hang" {
 		lat = ClientTimeout
 	}
+	if o.Kind == "blackhole" {
+		// never answers and the client has no timeout of its own: the request only ends with its context
+		simrt.Probe("fault:" + method + "-blackhole")
+		lat = 1000 * time.Hour
+	}
 	if err := simrt.Sleep(ctx, lat, party+"/"+method); err != nil {
 		finish(true)
 		return o, err
@@ -94,7 +102,7 @@ func (s *Script) Do(ctx context.Context, party, method string, arg any) (Outcome
 	case "error":
 		simrt.Probe("fault:" + method + "-error")
 		return o, fmt.Errorf("%s %s: %w", party, method, ErrSimulated)
-	case "hang":
+	case "hang", "blackhole":
 		simrt.Probe("fault:" + method + "-hang")
 		return o, fmt.Errorf("%s %s: timeout: %w", party, method, ErrSimulated)
 	case "odd":
